@@ -44,8 +44,14 @@ func (_ dimensionSetter) UpdateProperties(po tabular.PropertyOwner) error {
 		height:    cell.Height(),
 	}
 
-	linesWidths := make([]decoration.WidthString, dims.height)
-	for i, l := range cell.Lines() {
+	lines := cell.Lines()
+	// an item may declare a height smaller than its number of text lines
+	nLines := dims.height
+	if len(lines) > nLines {
+		nLines = len(lines)
+	}
+	linesWidths := make([]decoration.WidthString, nLines)
+	for i, l := range lines {
 		linesWidths[i] = decoration.WidthString{
 			S: l,
 			W: length.StringCells(l),
